@@ -106,8 +106,13 @@ class Check(object):
                                                              fmt_loc(o.loc) if o.loc else ''))
         os.makedirs(REPLAY_DIR, exist_ok=True)
         vseen = {}
+        more = 0
         for o in viols:
             if o.key in vseen:
+                continue
+            if len(vseen) >= 25:
+                more += 1
+                vseen[o.key] = None
                 continue
             idx = len(vseen) + 1
             path = os.path.join(REPLAY_DIR, '%s-%d.json' % (self.pid, idx))
@@ -118,6 +123,8 @@ class Check(object):
                            'detail': o.detail, 'tier': self.tier}, f, indent=1)
             print('%s: %s: %s' % (fmt_loc(o.loc) if o.loc else '?', o.rule, o.detail))
             print('VIOLATION property=%s replay=%s' % (self.pid, path))
+        if more:
+            print('... and %d further violated instances (all listed in the evidence file)' % more)
         self.write_evidence(len(vseen), len(seen))
         n_ok = sum(1 for o in self.obls if o.ok)
         print('%s [%s]: %d obligations, %d discharged, %d known findings, %d violations (%.1fs)'
